@@ -159,5 +159,39 @@ PROPS["C16"] = {
              fuzz("fuzz", "wire", "FuzzEnvelopeBytes", 90)],
 }
 
+EVENTS_ASSUME = [
+    "one driver goroutine executes the history on a fresh engine; barriers are logical (sentinel event through the FIFO event stream, then a direct probe message to every subscriber), never sleeps",
+    "bounded waits (30 s) only ever yield 'inconclusive' (exit 2)",
+]
+
+PROPS["C09"] = {
+    "id": "C09", "level": "exploration",
+    "rule": "generated histories (1..14 ops over 1..4 monitor actors): subscribe/unsubscribe (also through an equal PID in a distinct object), sends to targets "
+            "{nil, never spawned, stopped, foreign address on an engine without remote, live (control)} with 12 message values and 4 senders incl. none, monitors that stop "
+            "without unsubscribing, lifecycle episodes that end in a dead letter.  Each monitor's log between barriers must hold exactly one DeadLetterEvent per undeliverable "
+            "local send made while it was subscribed, with the Target, Message and Sender of the send, one EngineRemoteMissingEvent per foreign send, nothing for nil, in send order; "
+            "no send may panic; after the history the logs must stop growing within 10 sentinel rounds (dead letters addressed to a departed subscriber are allowed but must die out).  "
+            "Non-trivial = at least one undeliverable send was observed by a subscribed monitor and the history has >=2 undeliverable target classes, or >=1 with a departed subscriber.",
+    "technique": "model-based property testing (rapid) of generated send/subscribe histories on the real engine; sentinel barriers; finiteness by quiescence rounds",
+    "level_text": "Generated-history search against an exact expectation of the dead-letter log of every monitor; the feedback loop with departed subscribers is decided by quiescence rounds, not by time.",
+    "level_note": "single driver goroutine; 'never blocks' shows up only as an inconclusive timeout",
+    "assumptions": EVENTS_ASSUME,
+    "legs": [rapid("hist", "events", "TestDeadLetters", 2000, 40000, shards=(2, 12))],
+}
+
+PROPS["C12"] = {
+    "id": "C12", "level": "exploration",
+    "rule": "generated histories (1..14 ops over 1..4 subscriber actors): subscribe / unsubscribe through the same PID object or an equal PID in a distinct object, single broadcasts, "
+            "bursts of 1..4 concurrent broadcasters with 1..8 numbered events each, lifecycle episodes (spawn, optional crash, optional duplicate spawn, poison, optional late send).  "
+            "Each subscriber's log must equal the model's expectation: every event broadcast while it was subscribed exactly once, none otherwise, driver events in order, per-broadcaster "
+            "order inside a burst, one started/restarted/duplicate/stopped/dead-letter event per provoked occurrence.  Non-trivial = the history unsubscribes a subscribed actor or "
+            "subscribes an already subscribed actor through a distinct PID object, and broadcasts something.",
+    "technique": "model-based property testing (rapid) of subscribe/unsubscribe/broadcast histories on the real engine with logging subscriber actors and sentinel barriers",
+    "level_text": "Generated-history search against an exact per-subscriber model; concurrent broadcasters are real goroutines (interleavings sampled, oracle only demands per-broadcaster order).",
+    "level_note": "subscribe/unsubscribe are issued by the driver goroutine only (they are ordered with its broadcasts by the event stream inbox); ActorInitializedEvent is ignored",
+    "assumptions": EVENTS_ASSUME,
+    "legs": [rapid("hist", "events", "TestEventStream", 2000, 40000, shards=(2, 12))],
+}
+
 # reasons for properties that are not claimed (kept current by hand)
 NA_REASONS = {}
